@@ -57,6 +57,13 @@ Round 5:
   relatives        histories: relatives of a composite kept alive, item
                    assignments into one of them, every live object re-examined
                    unit by unit (monitor structure, keys structure/relatives/...).
+Round 6:
+  entry-points +   one special member among ordinary ones, for classes with a
+                   per-unit degenerate-case branch: BoundaryArc (exact half
+                   circles, arcs symmetric about an axis; also after
+                   flip_orientation and an orientation-reversing isometry),
+                   Segment / Geodesic (exact diameters, opposite-nappe
+                   representatives); keys per-index/<Class>{special-members}/...
 
 The axis order for pairwise is the one the property fixes (object axes first);
 the repository's two baseline-failing tests assume the opposite.
@@ -118,6 +125,8 @@ ASSUMPTIONS = [
     "Segment / TangentVector constructors do not broadcast their two arguments",
     "relatives: each live object is judged against units rebuilt from the primary data "
     "it holds at that moment; that relatives do not share primary data is not demanded",
+    "special members: the Poincare circle of an exact diameter (straight line, radius "
+    "unbounded) is not judged; every other part of every member is",
     "generic objects with per-instance ranks are judged through apply and "
     "flatten_to_unit only (reshape / __getitem__ / stacking of such objects go "
     "through the class constructor, whose rank arguments are the caller's)",
@@ -1495,6 +1504,10 @@ def wl_entry_points(run, rng, idx):
         at_i = {}
         for part, (rule, tol) in spec.rules.items():
             at_i[part] = np.asarray(comp[part])[i]
+            why = spec.skip_part(i, part) if getattr(spec, "skip_part", None) else None
+            if why:
+                J.mon.skip(why)
+                continue
             J.dev(part, _entry_dev(rule, at_i[part], unit[part]), i, tol=max(tol, 1e-300))
         if spec.hand:
             for label, err, tol in spec.hand(i, at_i):
@@ -1663,6 +1676,6 @@ WORKLOADS = [
     Workload("generic-ranks", wl_generic_ranks, quick=120, thorough=2400),
     Workload("special-units", wl_special_units, quick=48, thorough=960),
     Workload("second-arguments", wl_second_arguments, quick=64, thorough=1280),
-    Workload("entry-points", wl_entry_points, quick=240, thorough=4800),
+    Workload("entry-points", wl_entry_points, quick=275, thorough=5500),
     Workload("relatives", wl_relatives, quick=84, thorough=1680),
 ]
